@@ -103,6 +103,15 @@ def build(v):
                                                         attributes={'a': 'b'}))
     if kind == 'foreign_ownns_child':
         inst.extension_elements.append(ExtensionElement('VerifUndeclared', namespace=t['ns'], text='kept', attributes={'a': 'b'}))
+    if kind == 'foreign_samelocal':
+        # a foreign element that shares its local name with the first declared child of the class (or "Issuer")
+        local = 'Issuer'
+        for ch in t['children']:
+            local = ch['key'].rsplit('}', 1)[-1]
+            break
+        inst.extension_elements.append(ExtensionElement(local, namespace=FOREIGN_NS, text='kept', attributes={'a': 'b'}))
+    if kind == 'text_denormal':
+        inst.text = u'Ame\u0301lie \u212b \u2126 \u1100\u1161 e\u0301'
     if kind == 'foreign_nested':
         def fe(tag, text, kids=()):
             return ExtensionElement(tag, namespace=FOREIGN_NS, text=text, children=list(kids))
@@ -200,7 +209,7 @@ def main():
     if chk.tier != 'thorough':
         keep = []
         for c in cases:
-            if c['v']['kind'] in ('empty', 'allattrs', 'allchildren', 'foreign_child', 'foreign_attr', 'foreign_ownns_child', 'foreign_nested', 'ownns_attr', 'ownns_attr_both', 'text_layout', 'optattrs_empty', 'allattrs_altlex', 'allattrs_special') or not c['roundTrips'] \
+            if c['v']['kind'] in ('empty', 'allattrs', 'allchildren', 'foreign_child', 'foreign_attr', 'foreign_ownns_child', 'foreign_nested', 'foreign_samelocal', 'text_denormal', 'ownns_attr', 'ownns_attr_both', 'text_layout', 'optattrs_empty', 'allattrs_altlex', 'allattrs_special') or not c['roundTrips'] \
                     or chk.rng.random() < 0.35:
                 keep.append(c)
         cases = keep
